@@ -6,6 +6,7 @@ import (
 	"fmt"
 	"io"
 	"runtime"
+	"runtime/debug"
 	"strconv"
 	"strings"
 	"time"
@@ -293,6 +294,15 @@ func (c *wsCase) fields() string {
 	return f
 }
 
+func fieldOf(obs, key string) string {
+	for _, kv := range strings.Split(obs, " ") {
+		if strings.HasPrefix(kv, key+"=") {
+			return kv[len(key)+1:]
+		}
+	}
+	return ""
+}
+
 // prelude exercises other Writer/Reader objects so that the package pools have a history when the
 // session starts (C14: output does not depend on what the pools processed before)
 func prelude(kind int) {
@@ -306,9 +316,8 @@ func prelude(kind int) {
 			var b bytes.Buffer
 			zw := lz4.NewWriter(&b)
 			zw.Apply(lz4.BlockSizeOption(bs), lz4.ConcurrencyOption(kind))
-			src := &source{data: genData(0, 77, 3*int(bs)+100), failAt: 3, r: newRng(1, "pre")}
-			zw.ReadFrom(src)
-			zw.Close()
+			src := &source{data: genData(0, 77, 3*int(bs)+100), failAt: 1 + int(bs>>16)%3, r: newRng(1, "pre")}
+			zw.ReadFrom(src) // the failed Writer is abandoned, as a caller that gives up would do
 		case 3:
 			var b bytes.Buffer
 			zw := lz4.NewWriter(&b)
@@ -359,8 +368,24 @@ func readBack(frame []byte, conc int, mode int, r *rng) (out []byte, err error) 
 }
 
 func runWS(c *wsCase) string {
-	return withWatchdog(20*time.Second, func() string {
+	if c.pre != 0 {
+		// C14: the same session before and after the pools were given a history must emit the
+		// same bytes
+		c0 := *c
+		c0.pre = 0
+		// (no collection in between: a GC empties sync.Pool and with it the history)
+		defer debug.SetGCPercent(debug.SetGCPercent(-1))
+		before := fieldOf(runWS(&c0), "sinks")
 		prelude(c.pre)
+		obs := runWS(&c0)
+		if after := fieldOf(obs, "sinks"); after != before {
+			obs += " oracle_pool=fail:output-depends-on-what-the-package-pools-processed-before"
+		} else {
+			obs += " oracle_pool=ok"
+		}
+		return obs
+	}
+	return withWatchdog(20*time.Second, func() string {
 		g0 := runtime.NumGoroutine()
 		sk := &sink{failAt: c.fault, once: c.once}
 		sinks := []*sink{sk}
